@@ -14,13 +14,15 @@ def plan(tier):
     for (k, fam, kl, tw) in CLASSES:
         base = {'K': k, 'FAMILY': fam, 'KEYLEN': kl, 'TWEAKED': tw}
         for d in (0, 1):
+            if tier == 'quick' and d == 1 and not tw and kl not in (16, 8): continue      # quick: decryption of the smallest plain class per family and of every tweaked class
             qs.append(q('e2e:%s:%s' % (k, 'dec' if d else 'enc'), 'forall %d-byte keys, forall blocks: %s().setKey ; %sBlock == C library %s ; ecb_%s (full depth%s)' % (kl, k, 'decrypt' if d else 'encrypt', 'set_tweaked_key' if tw else 'set_key', 'decrypt' if d else 'encrypt', ', zero tweak' if tw else ''),
                         dict(base, OB_E2E=1, DIR=d)))
         qs.append(q('badkey:%s' % k, '%s().setKey with %d bytes returns false; keySize/blockSize as documented' % (k, kl + 1), dict(base, OB_BADKEY=1, BADLEN=kl + 1), timeout=600))
         if tw:
             for seq, what in ((1, 'setTweak(T1); setTweak(T2)'), (2, 'setTweak(T1); setTweak(NULL)'), (3, 'setTweak(T1); setTweak(NULL); setTweak(T2)'), (4, 'setTweak(T1); setTweak(T2); setTweak(T3)')):
                 if tier == 'quick' and seq not in (3, 4) and not (seq == 2 and k == 'Skinny64_128_Tweaked'): continue
-                if tier == 'quick' and seq == 4 and k != 'Skinny64_128_Tweaked': continue      # quick: the longest history for every class
+                if tier == 'quick' and seq == 4 and k != 'Skinny64_128_Tweaked': continue
+                if tier == 'quick' and seq == 3 and k == 'Skinny128_384_Tweaked': continue      # 5 minutes alone: thorough tier      # quick: the longest history for every class
                 for d in ((0, 1) if tier == 'thorough' else (0,)):
                     qs.append(q('tweakseq:%s:seq%d:%s' % (k, seq, 'dec' if d else 'enc'), 'forall key, tweaks, block: %s().setKey ; %s ; %sBlock == C library with only the key and the latest tweak (NULL = all-zero)' % (k, what, 'decrypt' if d else 'encrypt'),
                                 dict(base, OB_TWSEQ=1, SEQ=seq, DIR=d)))
